@@ -717,6 +717,17 @@ def _primitives(c, prog):
     c.inst("R7.with-size", "compact size of the length, then the bytes, nothing else",
            e == [("<encode::VarInt as encode::Encodable>::consensus_encode", ["encode::VarInt::VarInt{(core::slice::len(arg1) as u64)}", "arg2"]), ("ext::WriteExt::emit_slice", ["arg2", "arg1"])],
            "effects %s" % e, f.where(), f.path)
+    # endian::u32_to_array_le (trailing hash type of the legacy sighash, xpub derivation paths of the PSET global map): for i in 0..4
+    # res[i] = (val >> 8 i) & 0xff — one loop over the range 0..4 with exactly that store, result returned
+    from .c15 import Fn as _Fn, sh as _sh
+    EL = _Fn(prog, "endian::u32_to_array_le")
+    NXT = "some(std::iter::range::<impl std::iter::Iterator for std::ops::Range<A>>::next(std::ops::Range::Range{0, 4}))"
+    stores = [(_sh(s_[1]), _sh(s_[2])) for cx, s_ in EL.flat if s_[0] in ("set", "store") and cx and cx[-1][0] == "while"]
+    loops = [_sh(s_[1]) for s_ in EL.L if s_[0] == "while"]
+    want_store = ("var('v0',)[%s]" % NXT, "(((arg1 Shr (%s MulWithOverflow 8).0) BitAnd 255) as u8)" % NXT)
+    rets_ = [_sh(s_[1]) for cx, s_ in EL.flat if s_[0] == "ret"]
+    c.inst("R7.primitive-writer", "u32_to_array_le: byte i = (val >> 8i) & 0xff for i in 0..4", len(loops) == 1 and "Range{0, 4}" in loops[0] and stores == [want_store] and rets_ == ["var('v0',)"],
+           "loops %s; stores %s; returns %s" % (loops, stores, rets_), EL.f.where(), EL.f.path)
     # encoders that are "the bytes with their length": exactly one unconditional call of the helper on the whole byte view
     WS = {"<bitcoin::ScriptBuf as encode::Encodable>::consensus_encode": "bitcoin::Script::as_bytes(bitcoin::ScriptBuf::as_script(arg1))",
           "<sighash::Annex<'_> as encode::Encodable>::consensus_encode": "arg1.0"}
